@@ -93,12 +93,19 @@ def main():
                 mods.append(m)
         ok = True
         for m in mods:
-            for rep in range(2 if m == "." else 1):
+            # the root suite has timing-based tests that flake when the machine is loaded (also on the
+            # unmodified tree): it must pass twice out of at most four runs
+            need, tries, passed = (2, 4, 0) if m == "." else (1, 2, 0)
+            for rep in range(tries):
                 rc, out = sh([GO, "test", "-count=1", "./..."], cwd=os.path.join(wt, m))
                 suites["%s#%d" % (m, rep)] = rc == 0
-                ok = ok and rc == 0
-                if rc != 0:
+                if rc == 0:
+                    passed += 1
+                else:
                     res["suite_output"] = out[-1500:]
+                if passed >= need:
+                    break
+            ok = ok and passed >= need
         res["existing_suite_pass"] = ok
         res["suites"] = suites
         open(dpath, "w").write(demo)
